@@ -1,0 +1,72 @@
+// Copyright 2017 Pilosa Corp.
+//
+// Licensed under the Apache License, Version 2.0 (the "License");
+// you may not use this file except in compliance with the License.
+// You may obtain a copy of the License at
+//
+//     http://www.apache.org/licenses/LICENSE-2.0
+//
+// Unless required by applicable law or agreed to in writing, software
+// distributed under the License is distributed on an "AS IS" BASIS,
+// WITHOUT WARRANTIES OR CONDITIONS OF ANY KIND, either express or implied.
+// See the License for the specific language governing permissions and
+// limitations under the License.
+
+package pilosa
+
+import (
+	"os"
+	"testing"
+)
+
+// A fragment whose file ends inside its last op log entry (the process was
+// killed during the append) must open, keep every complete entry and accept
+// new writes that survive the next open.
+func TestFragment_Open_TornOpLog(t *testing.T) {
+	f := mustOpenFragment("i", "f", viewStandard, 0, "")
+	defer f.Clean(t)
+
+	f.mustSetBits(1, 10, 20)
+	fi, err := os.Stat(f.path)
+	if err != nil {
+		t.Fatal(err)
+	}
+	valid := fi.Size()
+	if err := f.bulkImport([]uint64{2, 2, 2}, []uint64{30, 31, 32}, &ImportOptions{}); err != nil {
+		t.Fatal(err)
+	}
+	if err := f.Close(); err != nil {
+		t.Fatal(err)
+	}
+	// cut the batch entry short
+	if fi, err = os.Stat(f.path); err != nil {
+		t.Fatal(err)
+	} else if err := os.Truncate(f.path, fi.Size()-5); err != nil {
+		t.Fatal(err)
+	}
+
+	if err := f.Open(); err != nil {
+		t.Fatalf("open with a torn op log: %v", err)
+	}
+	if cols := f.row(1).Columns(); len(cols) != 2 || cols[0] != 10 || cols[1] != 20 {
+		t.Fatalf("unexpected row 1: %v", cols)
+	} else if cols := f.row(2).Columns(); len(cols) != 0 {
+		t.Fatalf("torn entry applied: %v", cols)
+	}
+	if fi, err := os.Stat(f.path); err != nil {
+		t.Fatal(err)
+	} else if fi.Size() != valid {
+		t.Fatalf("file size %d after open, expected the torn entry to be cut at %d", fi.Size(), valid)
+	}
+
+	// new entries follow the last complete one
+	f.mustSetBits(3, 40)
+	if err := f.Reopen(); err != nil {
+		t.Fatal(err)
+	}
+	if cols := f.row(3).Columns(); len(cols) != 1 || cols[0] != 40 {
+		t.Fatalf("unexpected row 3: %v", cols)
+	} else if cols := f.row(1).Columns(); len(cols) != 2 {
+		t.Fatalf("unexpected row 1: %v", cols)
+	}
+}
